@@ -2,6 +2,7 @@ package props
 
 import (
 	"go/token"
+	"go/types"
 
 	"golang.org/x/tools/go/ssa"
 
@@ -15,7 +16,21 @@ func cooldownProtocol(c *Ctx) {
 	if !q.ok() {
 		return
 	}
-	timer, bc := an.CellByName(q.fn, "timer"), an.CellByName(q.fn, "broadcast")
+	// the cooldown cells, identified by what they are (not by their names): the captured *time.Timer
+	// cell and the captured bool cell of cleanup()
+	var timer, bc *ssa.Alloc
+	for _, in := range an.AllInstrs(q.fn, func(in ssa.Instruction) bool { _, ok := in.(*ssa.Alloc); return ok }) {
+		al := in.(*ssa.Alloc)
+		if !P.Captured(al) {
+			continue
+		}
+		switch al.Type().Underlying().(*types.Pointer).Elem().String() {
+		case "*time.Timer":
+			timer = al
+		case "bool":
+			bc = al
+		}
+	}
 	if timer == nil || bc == nil {
 		q.undecided("PATH", "cooldown cells", "the timer / broadcast cells of cleanup() were not found")
 		return
@@ -43,6 +58,32 @@ func cooldownProtocol(c *Ctx) {
 		}, nil)
 		cl.add("PATH", "a change seen during a cooldown is remembered", !skipped,
 			pickS(!skipped, "every path to this return ran cleanupLogic or set broadcast = true", "the cleanup closure can return without cleaning and without setting the broadcast flag: a change made during a cooldown would never be acted on"), r)
+	}
+	// a clean that shifted something must be followed by a re-evaluation: the Broadcast performed by cleanupLogic
+	// cannot wake the cleaner (it is the goroutine running it), so the closure itself has to consult the result:
+	// test it, loop on it, or store it into the re-broadcast flag
+	for _, lc := range logic {
+		call, isCall := lc.(*ssa.Call)
+		if !isCall {
+			continue
+		}
+		uses := func(in ssa.Instruction) bool {
+			switch x := in.(type) {
+			case *ssa.If:
+				return usesValue(P, stripNotV(x.Cond), call) || stripNotV(x.Cond) == ssa.Value(call)
+			case *ssa.Store:
+				return P.CellOf(x.Addr) == bc && usesValue(P, x.Val, call)
+			}
+			return false
+		}
+		ignored := false
+		for _, r := range returnsOf(cl.fn) {
+			if P.PathExists(cl.fn, lc, an.Is(r), uses, nil) {
+				ignored = true
+			}
+		}
+		cl.add("PATH", "a clean that changed the buffer is followed by a re-check", !ignored,
+			pickS(!ignored, "every path from cleanupLogic() to a return tests its result or stores it into the re-broadcast flag", "the result of cleanupLogic() is ignored: when a cleaner pass removes only part of what can be removed (e.g. FixedBufferCleaner's forced trim), nothing ever triggers the next pass - the broadcast made by cleanupLogic cannot wake the goroutine that is running it - and fully consumed values stay in the buffer"), lc)
 	}
 	// a non-nil timer store is followed by the timer goroutine
 	gos := an.AllInstrs(cl.fn, func(in ssa.Instruction) bool { _, ok := in.(*ssa.Go); return ok })
